@@ -3,21 +3,32 @@
 //! Parent: `run_range` spawns `<exe> <prop> --child <job...> <start> <end>`
 //! and reads one line per case from the child's stdout:
 //!   `R <idx> <payload>`   case finished (payload = outcome, no newline)
+//!                         payload `X|<bytes>`: the case requested a single
+//!                         allocation above the limit (its thread was suspended)
 //!   `ENORMOUS <bytes>`    written by the allocator when it refuses a request
-//!   `HANG <idx>`          written by the watchdog before it aborts
+//!                         outside a supervised thread (then null is returned)
+//!   `HANG <idx>`          written by the supervisor before it aborts
 //!   `FAIL <message>`      machinery failure inside the child
+//!   `RECYCLE`             clean exit before the end (too many abandoned threads)
 //!   `DONE`                the range is complete
 //! If the child dies, the case after the last `R` line killed it; it is
 //! reported as `Died` and the child is restarted after that case.
 //!
-//! Child: `ChildCtx` provides `begin(idx)` / `end(idx, payload)` and runs the
-//! per-case watchdog.
+//! Child (`child_main`): the cases run on a worker thread; the main thread
+//! supervises. A request above the allocation limit suspends the worker
+//! inside the allocator for good (see alloc.rs); the supervisor reports the
+//! case, abandons that thread and starts a new worker at the next case, so an
+//! enormous allocation costs a thread, not a process (a process start costs
+//! ~100 ms on this machine). Real aborts (stack overflow, abort(), double
+//! panic) and hangs still take the process down and are attributed by the
+//! parent.
 
 use crate::alloc;
 use std::io::{BufRead, BufReader, Write};
 use std::os::fd::AsFd;
 use std::process::{Command, Stdio};
-use std::sync::atomic::{AtomicU64, Ordering};
+use std::sync::Arc;
+use std::sync::atomic::{AtomicBool, AtomicU64, Ordering};
 use std::time::{Duration, Instant};
 
 pub const CASE_WALL_LIMIT_MS: u64 = 5000;
@@ -43,12 +54,14 @@ pub fn run_range(prop: &str, job: &[String], start: usize, end: usize, on: &mut 
             cmd.arg(j);
         }
         cmd.arg(next.to_string()).arg(end.to_string());
+        cmd.env("RUST_BACKTRACE", "0");
         cmd.stdin(Stdio::null()).stdout(Stdio::piped()).stderr(Stdio::null());
         let mut ch = cmd.spawn().unwrap_or_else(|e| engine::machinery_failure(&format!("cannot spawn child: {e}")));
         let out = ch.stdout.take().unwrap();
         let mut enormous: Option<String> = None;
         let mut hang = false;
         let mut done = false;
+        let mut recycle = false;
         let first = next;
         for line in BufReader::new(out).lines() {
             let Ok(line) = line else { break };
@@ -71,6 +84,8 @@ pub fn run_range(prop: &str, job: &[String], start: usize, end: usize, on: &mut 
                 hang = true;
             } else if line == "DONE" {
                 done = true;
+            } else if line == "RECYCLE" {
+                recycle = true;
             } else if let Some(m) = line.strip_prefix("FAIL ") {
                 engine::machinery_failure(&format!("child: {m}"));
             }
@@ -81,6 +96,9 @@ pub fn run_range(prop: &str, job: &[String], start: usize, end: usize, on: &mut 
         }
         if done {
             engine::machinery_failure("child said DONE before the end of its range");
+        }
+        if recycle && status.success() && next > first {
+            continue;
         }
         // died on case `next`
         use std::os::unix::process::ExitStatusExt;
@@ -113,66 +131,106 @@ pub fn run_range(prop: &str, job: &[String], start: usize, end: usize, on: &mut 
 // ---------------------------------------------------------------------------
 // child side
 
-static CUR_IDX: AtomicU64 = AtomicU64::new(0);
-/// 0 = idle, otherwise ms since process start + 1
-static CUR_START: AtomicU64 = AtomicU64::new(0);
+/// abandoned (suspended) worker threads after which the child exits cleanly
+/// and is restarted by the parent
+pub const MAX_ABANDONED_THREADS: usize = 2000;
+const WORKER_STACK: usize = 16 * 1024 * 1024;
 
-pub struct ChildCtx {
+struct Shared {
+    /// index of the case being executed
+    cur: AtomicU64,
+    /// 0 = idle, otherwise ms since process start + 1
+    started: AtomicU64,
+    finished: AtomicBool,
     out: std::fs::File,
     t0: Instant,
-    refused_before: u64,
 }
 
-impl ChildCtx {
-    pub fn new() -> Self {
-        let fd = std::io::stdout().as_fd().try_clone_to_owned().unwrap_or_else(|e| engine::machinery_failure(&format!("dup stdout: {e}")));
-        let out = std::fs::File::from(fd);
-        let log = out.try_clone().unwrap_or_else(|e| engine::machinery_failure(&format!("dup stdout: {e}")));
-        alloc::set_log(log);
-        let t0 = Instant::now();
-        std::thread::spawn(move || {
-            loop {
-                std::thread::sleep(Duration::from_millis(50));
-                let s = CUR_START.load(Ordering::SeqCst);
-                if s != 0 {
-                    let now = t0.elapsed().as_millis() as u64 + 1;
-                    if now > s + CASE_WALL_LIMIT_MS {
-                        alloc::raw_log(b"HANG ", CUR_IDX.load(Ordering::SeqCst));
-                        std::process::abort();
-                    }
+fn write_line(out: &std::fs::File, idx: usize, payload: &str) {
+    let mut line = Vec::with_capacity(payload.len() + 24);
+    let _ = write!(line, "R {idx} ");
+    for b in payload.bytes() {
+        line.push(if b == b'\n' || b == b'\r' { b' ' } else { b });
+    }
+    line.push(b'\n');
+    let mut w: &std::fs::File = out;
+    if w.write_all(&line).is_err() {
+        std::process::exit(2);
+    }
+}
+
+pub fn child_fail(msg: &str) -> ! {
+    println!("FAIL {}", msg.replace('\n', " "));
+    std::process::exit(2)
+}
+
+/// Runs `exec(idx)` for idx in start..end on supervised worker threads and
+/// speaks the protocol on stdout. `exec` returns the payload of the case.
+pub fn child_main(start: usize, end: usize, exec: Arc<dyn Fn(usize) -> String + Send + Sync>) -> i32 {
+    let fd = std::io::stdout().as_fd().try_clone_to_owned().unwrap_or_else(|e| child_fail(&format!("dup stdout: {e}")));
+    let out = std::fs::File::from(fd);
+    let log = out.try_clone().unwrap_or_else(|e| child_fail(&format!("dup stdout: {e}")));
+    alloc::set_log(log);
+    let mut next = start;
+    let mut abandoned = 0usize;
+    let t0 = Instant::now();
+    while next < end {
+        let sh = Arc::new(Shared { cur: AtomicU64::new(next as u64), started: AtomicU64::new(0), finished: AtomicBool::new(false), out: out.try_clone().unwrap_or_else(|e| child_fail(&format!("dup: {e}"))), t0 });
+        let w = sh.clone();
+        let ex = exec.clone();
+        let from = next;
+        let spawned = std::thread::Builder::new().stack_size(WORKER_STACK).spawn(move || {
+            alloc::mark_subject_thread();
+            for i in from..end {
+                w.cur.store(i as u64, Ordering::SeqCst);
+                w.started.store(w.t0.elapsed().as_millis() as u64 + 1, Ordering::SeqCst);
+                let payload = ex(i);
+                w.started.store(0, Ordering::SeqCst);
+                write_line(&w.out, i, &payload);
+            }
+            w.finished.store(true, Ordering::SeqCst);
+        });
+        let handle = spawned.unwrap_or_else(|e| child_fail(&format!("thread spawn: {e}")));
+        // supervise
+        loop {
+            if sh.finished.load(Ordering::SeqCst) {
+                let _ = handle.join();
+                next = end;
+                break;
+            }
+            let sz = alloc::SUSPENDED.swap(0, Ordering::SeqCst);
+            if sz != 0 {
+                // the worker is suspended inside the allocator on case `cur`
+                let idx = sh.cur.load(Ordering::SeqCst) as usize;
+                write_line(&out, idx, &format!("X|{sz}"));
+                abandoned += 1;
+                next = idx + 1;
+                std::mem::forget(handle);
+                break;
+            }
+            if handle.is_finished() {
+                // the worker thread ended without finishing (cannot happen: panics are caught by exec)
+                child_fail("worker thread ended unexpectedly");
+            }
+            let s = sh.started.load(Ordering::SeqCst);
+            if s != 0 {
+                let now = t0.elapsed().as_millis() as u64 + 1;
+                if now > s + CASE_WALL_LIMIT_MS {
+                    alloc::raw_log(b"HANG ", sh.cur.load(Ordering::SeqCst));
+                    std::process::abort();
                 }
             }
-        });
-        ChildCtx { out, t0, refused_before: 0 }
-    }
-
-    pub fn begin(&mut self, idx: usize) {
-        self.refused_before = alloc::refused();
-        CUR_IDX.store(idx as u64, Ordering::SeqCst);
-        CUR_START.store(self.t0.elapsed().as_millis() as u64 + 1, Ordering::SeqCst);
-    }
-
-    pub fn end(&mut self, idx: usize, payload: &str) {
-        CUR_START.store(0, Ordering::SeqCst);
-        let mut line = Vec::with_capacity(payload.len() + 24);
-        let _ = write!(line, "R {idx} ");
-        for b in payload.bytes() {
-            line.push(if b == b'\n' || b == b'\r' { b' ' } else { b });
+            std::thread::sleep(Duration::from_micros(150));
         }
-        line.push(b'\n');
-        if self.out.write_all(&line).is_err() {
-            std::process::exit(2);
+        if abandoned >= MAX_ABANDONED_THREADS && next < end {
+            let mut w: &std::fs::File = &out;
+            let _ = w.write_all(b"RECYCLE\n");
+            return 0;
         }
     }
-
-    pub fn done(&mut self) {
-        let _ = self.out.write_all(b"DONE\n");
-    }
-
-    pub fn fail(&mut self, msg: &str) -> ! {
-        let _ = self.out.write_all(format!("FAIL {}\n", msg.replace('\n', " ")).as_bytes());
-        std::process::exit(2)
-    }
+    let mut w: &std::fs::File = &out;
+    let _ = w.write_all(b"DONE\n");
+    0
 }
 
 /// parse the trailing `<start> <end>` of the child arguments
